@@ -55,8 +55,8 @@ pub fn check_spec(prop: &str) -> Option<CheckSpec> {
 pub fn selftest() -> i32 {
     let mut failures: Vec<String> = vec![];
     // 1. overlay
-    if super::OVERLAY_SUBSTITUTIONS != 6 {
-        failures.push(format!("overlay made {} substitutions of std::sync::Mutex in fixtures/mod.rs, expected 6", super::OVERLAY_SUBSTITUTIONS));
+    if super::OVERLAY_SUBSTITUTIONS != 8 {
+        failures.push(format!("overlay made {} substitutions of std::sync::Mutex in fixtures/mod.rs, expected 8", super::OVERLAY_SUBSTITUTIONS));
     }
     // 2. lock admission rule of dashmap 6.1.0's lock, replayed against the stub
     failures.extend(lock_admission_table());
